@@ -17,6 +17,7 @@ RULE = (
     "3 representative MetaModule user-defined controllers over 0..44100; unit-dependent ranges are visited on an object whose unit was switched through every other member first (alternately by assignment and set_raw), right after set_raw, after loading, and on modules loaded from files that carry only the first k controller values. Every point is distinct by "
     "construction; non-trivial = point of a range with negative minimum, or a span that does not divide "
     "32768, or a unit-dependent range, or an enum member with non-zero value"
+    ' Also (added while the seeded-change rounds of DESIGN section 9 ran): Also: the CVAL both writers put into the file and what loading gives back (ends, middle, -2..1, 255/256, 32767/32768; every value of no-offset ranges), mapped MetaModule user controllers holding a value of their own, encodings with the strictness flag off, and all axes again after user subclasses were derived.'
 )
 ASSUMPTIONS = [
     "the YAML bounds (min/max/compact/no_offset/ranges) are the declared ranges",
